@@ -508,11 +508,12 @@ def crop(
     if isinstance(width, Variable):
         return SemPredEvalResult({width: DerivationTree(str(len(unparsed)), None)})
 
-    assert isinstance(width, DerivationTree)
-    if not width.is_complete():
-        return SemPredEvalResult(None)
+    assert isinstance(width, DerivationTree) or isinstance(width, int)
+    if isinstance(width, DerivationTree):
+        if not width.is_complete():
+            return SemPredEvalResult(None)
 
-    width = int(str(width))
+        width = int(str(width))
 
     if len(unparsed) <= width:
         return SemPredEvalResult(True)
